@@ -8,6 +8,7 @@ import (
 	"encoding/json"
 	"errors"
 	"fmt"
+	"sort"
 	"strconv"
 	"strings"
 
@@ -335,6 +336,119 @@ func applyAstOp(root *ast.Node, op *astOp, rawArg bool) (obs string) {
 			return errObs(ierr)
 		}
 		return strings.Join(parts, ",")
+	case "Values", "Properties":
+		// the iterator objects, driven the way their documentation shows: HasNext, then Next
+		var parts []string
+		if op.O == "Values" {
+			it, err := t.Values()
+			if err != nil {
+				return errObs(err)
+			}
+			var v ast.Node
+			for it.HasNext() {
+				if !it.Next(&v) {
+					return "HASNEXT-WITHOUT-NEXT after " + strings.Join(parts, ",")
+				}
+				parts = append(parts, projNode(&v))
+			}
+			if it.Next(&v) {
+				return "NEXT-AFTER-END " + projNode(&v)
+			}
+		} else {
+			it, err := t.Properties()
+			if err != nil {
+				return errObs(err)
+			}
+			var p ast.Pair
+			for it.HasNext() {
+				if !it.Next(&p) {
+					return "HASNEXT-WITHOUT-NEXT after " + strings.Join(parts, ",")
+				}
+				parts = append(parts, strconv.Quote(p.Key)+":"+projNode(&p.Value))
+			}
+			if it.Next(&p) {
+				return "NEXT-AFTER-END " + p.Key
+			}
+		}
+		return strings.Join(parts, ",")
+	case "IndexPair":
+		p := t.IndexPair(op.I)
+		if p == nil {
+			return "NX"
+		}
+		return strconv.Quote(p.Key) + ":" + projNode(&p.Value)
+	case "IndexOrGetWithIdx":
+		c, i := t.IndexOrGetWithIdx(op.I, op.Key)
+		o := projNode(c)
+		if t.TypeSafe() != ast.V_OBJECT {
+			return o // the position is meaningless when there is no object
+		}
+		return o + "@" + strconv.Itoa(i)
+	case "UseNode":
+		var v interface{}
+		var err error
+		switch op.I {
+		case 0:
+			v, err = t.InterfaceUseNode()
+		case 1:
+			v, err = t.MapUseNode()
+		default:
+			v, err = t.ArrayUseNode()
+		}
+		if err != nil {
+			return errObs(err)
+		}
+		switch x := v.(type) {
+		case ast.Node:
+			return projNode(&x)
+		case []ast.Node:
+			parts := make([]string, len(x))
+			for i := range x {
+				parts[i] = projNode(&x[i])
+			}
+			return "[" + strings.Join(parts, ",") + "]"
+		case map[string]ast.Node:
+			keys := make([]string, 0, len(x))
+			for k := range x {
+				keys = append(keys, k)
+			}
+			sort.Strings(keys)
+			parts := make([]string, len(keys))
+			for i, k := range keys {
+				c := x[k]
+				parts[i] = strconv.Quote(k) + ":" + projNode(&c)
+			}
+			return "{" + strings.Join(parts, ",") + "}"
+		}
+		return fmt.Sprintf("UNEXPECTED-TYPE %T", v)
+	case "GetByPath":
+		var path []interface{}
+		switch op.J {
+		case 0:
+			path = []interface{}{op.I}
+		case 1:
+			path = []interface{}{op.Key}
+		case 2:
+			path = []interface{}{op.Key, op.I}
+		default:
+			path = []interface{}{op.I, op.Key}
+		}
+		return projNode(t.GetByPath(path...))
+	case "Cap":
+		c, err := t.Cap()
+		if err != nil {
+			return errObs(err)
+		}
+		if c < 0 {
+			return fmt.Sprintf("CAP %d", c)
+		}
+		return "OK"
+	case "Raw":
+		s, err := t.Raw()
+		if err != nil {
+			return errObs(err)
+		}
+		return compact([]byte(s))
 	case "Interface":
 		v, err := t.Interface()
 		if err != nil {
